@@ -19,7 +19,7 @@ import common
 from common import bits2float, dec, float2bits
 
 PROP = "C09"
-PROPS_FILES = ["Pms/Props/C09.lean"]
+PROPS_FILES = ["Pms/Props/C09.lean", "Pms/Props/C09Add.lean"]
 GENERATORS = ["boo"]
 RULE = ("seeded generator over n∈5..12 particles × cell {orthogonal, triclinic (lower-triangular h-matrix)} × ppp masks × T∈1..3 "
         "frames (linear or non-uniform time steps) × neighbour definition {random lists, N-nearest (real writer), cutoff (real "
@@ -610,6 +610,27 @@ def crystal_case(rng, name, l, rotate=True):
             "nb": [nbrows], "wt": None, "wseed": 0, "Nmax": 30, "nparam": None, "crystal": name}
 
 
+def model_shell_case(rng, name, l, tight):
+    """a perfect shell built from the MODEL's integer bond vectors (driver op `refshell`, the vectors the theorem
+    `C09_reference_shells` quantifies over), every bond rescaled by its own factor; tight: unrotated, positions exactly on the
+    decimal grid, so the real q_l must equal the theorem's exact value √(ql2) to rounding; otherwise rotated (1e-4 grid)."""
+    out = common.drive([f"refshell {name} {l}"])[0].split()
+    exact = out[0]
+    vec = np.array([int(t) for t in out[1:]], dtype=float).reshape(-1, 3)
+    if tight:
+        pts = np.array([v * rng.choice([0.25, 0.5, 0.125]) for v in vec])
+    else:
+        pts = np.array([v / np.linalg.norm(v) * rng.uniform(0.9, 1.4) for v in vec]) @ rot(rng).T
+    Z = len(pts)
+    ctr = np.array([6.0, 6.0, 6.0])
+    pos = [ctr] + [ctr + p for p in pts]
+    frames = [[[f"{x:.4f}" for x in p] for p in pos]]
+    nbrows = [list(range(1, Z + 1))] + [[0] for _ in range(Z)]
+    return {"n": Z + 1, "kind": "orth", "H": [["12", "0", "0"], ["0", "12", "0"], ["0", "0", "12"]], "ppp": [0, 0, 0], "T": 1, "steps": [0],
+            "frames": frames, "l": l, "nbkind": "crystal:" + name, "wkind": "none", "c": "0.70", "dt": "0.002", "rdelta": "0.5",
+            "nb": [nbrows], "wt": None, "wseed": 0, "Nmax": 30, "nparam": None, "crystal": name, "exact_ql2": exact, "tight": bool(tight)}
+
+
 def crystal_check(case, real=None):
     """centre particle of a perfect shell against the tabulated values (positions on a 1e-4 grid → 2e-4 tolerance)"""
     name, l = case["crystal"], case["l"]
@@ -620,6 +641,11 @@ def crystal_check(case, real=None):
     wc = float(real["wcq"][0][0])
     qt = tab[0] if l == 4 else tab[1]
     wt = tab[2] if l == 4 else tab[3]
+    if "exact_ql2" in case:
+        qe = math.sqrt(float(Fraction(case["exact_ql2"])))
+        if abs(q - qe) > (1e-9 if case.get("tight") else 3e-4):
+            return (f"crystal:{name}: q_{l} of the centre of a perfect {name} shell (model vectors) is {q!r}, "
+                    f"the exact value proved in C09_reference_shells is sqrt({case['exact_ql2']}) = {qe!r}")
     if abs(q - qt) > 3e-4:
         return f"crystal:{name}: q_{l} of the centre of a perfect {name} shell is {q:.6f}, tabulated {qt:.6f}"
     if wt is not None and qt > 1e-3 and abs(wc - wt) > 3e-4:
@@ -715,6 +741,10 @@ def correspond(run):
     for name in ("fcc", "hcp", "bcc14", "bcc8", "sc", "ico"):
         for l in (4, 6):
             cases.append(crystal_case(run.rng, name, l))
+    for name in ("fcc", "hcp", "bcc14", "bcc8", "sc"):
+        for l in (4, 6):
+            cases.append(model_shell_case(run.rng, name, l, True))
+            cases.append(model_shell_case(run.rng, name, l, False))
     cases += [gen_case(run.rng, run.tier) for _ in range(n)]
     dis, prop, skipped = [], [], {}
     for case in cases:
